@@ -47,6 +47,8 @@ def instances(tier, seed):
     out.append(dict(name="listcontainer", params=dict(kind="list")))
     for pat in ("a", "^b", "x$", ".*", "_p", "nomatch", "a|b", "[ab]", "k.y"):
         out.append(dict(name="search %r" % pat, params=dict(kind="search", pat=pat)))
+    for pat in ("b", "plain", ".*", "kxy|tup", "a", "nomatch"):
+        out.append(dict(name="search, mixed entries %r" % pat, params=dict(kind="search", pat=pat, mixed=True)))
     for n in ((0, 1, 2, 3) if tier == "quick" else (0, 1, 2, 3, 4, 5)):
         for ls in ((1, 2, 3, 16) if tier == "quick" else (1, 2, 3, 8, 16)):
             out.append(dict(name="hex n=%d linesize=%d" % (n, ls), params=dict(kind="hex", n=n, ls=ls)))
@@ -269,6 +271,19 @@ def _search(ctx, C, p):
     c = C.Container(a=v[0], n=C.Container(b=v[1], kxy=v[2], l=C.ListContainer([C.Container(ax=v[3]), C.Container(b=v[4], _p=v[5])])), b=0, _p=1, x=C.ListContainer([]),
                     grid=C.ListContainer([C.ListContainer([C.Container(b=v[0], ax=7)]), C.ListContainer([]), C.ListContainer([C.ListContainer([C.Container(kxy=v[1])])])]))
     flat = [("a", v[0]), ("b", v[1]), ("kxy", v[2]), ("ax", v[3]), ("b", v[4]), ("_p", v[5]), ("b", 0), ("_p", 1), ("b", v[0]), ("ax", 7), ("kxy", v[1])]
+    if p.get("mixed"):
+        # what parse produces for Sequence(Byte, Struct(...)) -- scalars next to Containers in a list --, entries assigned by
+        # the user under keys that are not text, and entries whose values are plain lists / dicts / tuples (Computed, update())
+        c = C.Container()
+        c["a"] = v[0]
+        c[3] = v[1]
+        c["seq"] = C.ListContainer([5, None, C.Container(b=v[2]), b"x", C.Container(kxy=v[3], b=v[4])])
+        c[b"k"] = 1
+        c["plainl"] = [7, 2]
+        c["plaind"] = {"b": 9}
+        c["b"] = v[5]
+        c["tup"] = (1, 2)
+        flat = [("a", v[0]), ("b", v[2]), ("kxy", v[3]), ("b", v[4]), ("plainl", [7, 2]), ("plaind", {"b": 9}), ("b", v[5]), ("tup", (1, 2))]
     rx = re.compile(pat)
     want = [val for k, val in flat if rx.match(k)]
     got_all = c.search_all(pat)
